@@ -241,13 +241,17 @@ func runC01(e *Env) {
 			hops = append(hops, opT{ch, k})
 		}
 	}
+	histMax := 4
+	if e.Thorough {
+		histMax = 5
+	}
 	var hist [][]int
 	var gen func(p []int)
 	gen = func(p []int) {
 		if len(p) > 0 {
 			hist = append(hist, append([]int{}, p...))
 		}
-		if len(p) == 4 {
+		if len(p) == histMax {
 			return
 		}
 		for o := range hops {
@@ -266,7 +270,7 @@ func runC01(e *Env) {
 			c.Insts = append(c.Insts, probe)
 			c01Doc(e, m, &c)
 			e.R.Transition(int64(len(h)))
-			if len(h) <= 3 && (e.Thorough || len(h) <= 2) {
+			if len(h) <= 3 {
 				cc := c
 				cc.Path = "cli"
 				c01Doc(e, m, &cc)
@@ -274,7 +278,7 @@ func runC01(e *Env) {
 		})
 		nh += int64(len(hist))
 	}
-	e.R.AddPart(ev.Part{Name: "key-change-histories", Enumerated: "all histories of length <= 4 over {chord, rest} x {-, Cb, F#m, A}, with and without --key E, probe chord appended; through the CLI for length <= 2 (quick) / <= 3 (thorough)", Executions: nh, Exhaustive: true})
+	e.R.AddPart(ev.Part{Name: "key-change-histories", Enumerated: "all histories of length <= 4 (5 in thorough) over {chord, rest} x {-, Cb, F#m, A}, with and without --key E, probe chord appended; through the real binary for length <= 3", Executions: nh, Exhaustive: true})
 	e.R.Sample(map[string]any{"part": "key-change-histories", "history": "[rest key=Cb][chord][chord key=F#m][rest] + probe, --key E"})
 
 	// symbol sequences: every ordered pair of look-ups as [A B A B] in one document (a dictionary that
